@@ -155,6 +155,18 @@ class Check(PropertyCheck):
                 pairs = rng.sample(pairs, 700)
             for i, j in pairs:
                 cases.append(("parse", _flip(raw, [i, j])))
+        # the CRC is big-endian: a frame with its two CRC bytes exchanged is (unless they are equal) not a frame; and every
+        # 1- and 2-bit corruption confined to the CRC bytes, for every ACK / NAK value and a spread of reset codes
+        ctl = [("ACK", r, n, a) for r in range(2) for n in range(2) for a in range(8)] \
+            + [("NAK", r, n, a) for r in range(2) for n in range(2) for a in range(8)] + [("RST",)] \
+            + [(k, 2, c) for k in ("RSTACK", "ERROR") for c in (range(256) if tier == "thorough" else range(0, 256, 5))]
+        for fr in ctl + [f for f in frames if f[0] == "DATA"][::9]:
+            raw = ashref.encode(fr)
+            cases.append(("parse", raw[:-2] + raw[-1:] + raw[-2:-1]))
+            if (fr[0] in ("ACK", "NAK", "RST") and (tier == "thorough" or fr[1:3] in ((0, 0), (1, 1), ()))) or tier == "thorough":
+                nb = len(raw) * 8
+                for i, j in itertools.combinations(range(nb - 16, nb), 2):
+                    cases.append(("parse", _flip(raw, [i, j])))
         # stuffing
         for n in list(range(0, 12)) + [50, 200]:
             for p in payload_classes(n, rng):
